@@ -1062,9 +1062,68 @@ def open_path_blocking(ck, seed):
         ck.inconclusive.append('the open path can reach %s (waits for another process) but the native runs under a held lock returned' % waits)
 
 
+def client_wrappers_bounded(ck, seed):
+    """C18 for the calls clients actually make (ClockBoundClient::now, clockbound_now): apart from the one snapshot() call they are
+    straight-line code - no loop of their own (a retry around snapshot()/now() would multiply, or remove, the bound on the work of a
+    call).  Native, standing: a complete record stamped one hour ahead of the caller's monotonic clock and no daemon: each library's call
+    must return (CausalityBreach), in a child process under a watchdog."""
+    from .client_now import load_shm_program
+    pr = Prover(seed)
+    T = z3.BoolVal(True)
+    cyc = {}
+    try:
+        prog, _w = load_shm_program()
+        for label, fn in (('ClockBoundClient::now', prog.find1('now', self_ty='ClockBoundClient', crate='clock_bound_client')), ('clockbound_now', prog.find1('clockbound_now', crate='clockbound'))):
+            # successor relation of the function's MIR (unwind edges left out), cycle search
+            succ = {}
+            for bb, stmts in fn.blocks.items():
+                if bb in fn.cleanup:
+                    continue
+                t = stmts[-1]
+                tg = set(re.findall(r'\bbb\d+\b', t.split(' -> ', 1)[1] if ' -> ' in t else '')) if not t.startswith('goto') else set(re.findall(r'\bbb\d+\b', t))
+                tg -= {x for x in re.findall(r'unwind: (bb\d+)', t)}
+                succ[bb] = {x for x in tg if x in fn.blocks and x not in fn.cleanup}
+            color = {}
+            back = []
+
+            def dfs(u):
+                color[u] = 1
+                for v in succ.get(u, ()):
+                    if color.get(v) == 1:
+                        back.append((u, v))
+                    elif v not in color:
+                        dfs(v)
+                color[u] = 2
+            dfs('bb0')
+            cyc[label] = back
+            pr.prove('%s has no loop of its own (its work is one snapshot() call plus straight-line code)' % label, T, z3.BoolVal(not back), need_reach=False)
+    except EngineError as e:
+        ck.inconclusive.append('client wrappers not found: %s' % e)
+    ck.cov['client_wrapper_loops'] = {k: [list(x) for x in v] for k, v in cyc.items()}
+    rp = common.Replay('debug')
+    runs = {}
+    hung = None
+    for which in ('rust', 'c'):
+        out = rp.ask('nowahead %s 3000' % which)
+        runs[which] = out[:140]
+        ck.cov['evaluations'] += 1
+        if out.startswith('ok hung') and hung is None:
+            hung = (which, out)
+    rp.close()
+    ck.cov['native_record_ahead_of_the_clock'] = runs
+    if hung:
+        which, out = hung
+        ck.violation('client-call-spins', 'the segment holds a complete record whose as_of is one hour ahead of the caller\'s monotonic clock and there is no daemon: %s had not returned 3000 ms later (it keeps asking instead of returning the causality error)%s'
+                     % ('ClockBoundClient::now()' if which == 'rust' else 'clockbound_now()', ('; loop in the wrapper: %s' % cyc) if any(cyc.values()) else ''), {'cmd': 'nowahead %s 3000' % which, 'native': out})
+        pr.handled = {n for n, m in pr.failed}
+    ck.absorb(pr)
+
+
 def check_c18(tier, seed):
     ck = Check('C18', tier, seed)
     open_path_blocking(ck, seed)
+    if not ck.violations:
+        client_wrappers_bounded(ck, seed)
     P = Programs(tolerate_reader_loops=True)
     if P.snap is None:
         ck.cov['functions_encoded'] = ['ShmReader::snapshot (loop by loop)', 'ShmReader::new']
@@ -1221,7 +1280,10 @@ def restart_chain_native(ck):
             if not f.get('bytes'):
                 bad.append('start %d over a valid segment (generation %d) failed: %s' % (k + 1, gen, out[:80])); break
             nb = bytes.fromhex(f['bytes'])
-            if nb[14:] != (hdr + rec)[14:] or nb[:12] != hdr[:12]:
+            gen_after = struct.unpack('<H', nb[14:16])[0] if len(nb) >= 16 else 0
+            # taken over in place: not re-created or emptied (magic and size intact, the generation does not return to 0) and the record
+            # is the published one unless the new daemon has itself published over it (generation moved on)
+            if len(nb) != 72 or nb[:12] != hdr[:12] or gen_after == 0 or (nb[16:] != rec and gen_after == gen):
                 bad.append('daemon start %d in a row without a publication (generation %d): segment not taken over in place, generation/record now %s... (was %s...)' % (
                     k + 1, gen, nb[14:40].hex(), (hdr + rec)[14:40].hex())); break
             cur = f['bytes']
